@@ -21,10 +21,10 @@ ASSUMPTIONS = ['float32 values are reduced in float32 by the library (z.mean() e
 
 
 def plan(tier, seed):
-    n = 1200 if tier == 'quick' else 8000
+    n = 1200 if tier == 'quick' else 60000
     out = [('stats', i) for i in range(n)]
     if tier == 'thorough':
-        out += [('big', i) for i in range(60)]
+        out += [('big', i) for i in range(300)]
     return out
 
 
